@@ -187,11 +187,16 @@ def parse_consumer(seg):
     return storage_common.parse_consumer(seg)
 
 
-def oracle(impl_line):
-    """The property's own demands evaluated on the implementation's output alone.  Returns a list of failures."""
+def oracle(impl_line, case=None):
+    """The property's own demands evaluated on the implementation's output alone.  Returns a list of failures.
+    A crash with intervals = 0 is outside conc_no_crash's hypothesis 1 <= intervals (ring.New(0) is nil; whether Configure
+    should refuse that value is C19's question): it is compared with the model (which crashes too) but not alarmed on."""
     bad = []
     secs = impl_line.split(" | ")
+    zero_intervals = case is not None and case.split()[1] == "0"
     for s in secs[1:]:
+        if s.startswith("CRASH") and zero_intervals:
+            continue
         if s.startswith("CRASH"):
             bad.append("crash: a handler panicked (%s) - worker goroutines have no recover, the process dies" % s[6:])
         elif s == "DEADLOCK":
@@ -501,7 +506,7 @@ def run(chk, failed):
     reported = 0
     oracle_hits = []
     for i, (c, a) in enumerate(zip(cases, impl)):
-        bad = oracle(a)
+        bad = oracle(a, c)
         if bad:
             oracle_hits.append((i, c, a, bad))
     for (i, c, a, bad) in oracle_hits[:4]:
@@ -512,7 +517,15 @@ def run(chk, failed):
 
     # 2. failed proof obligations: classified bad rows are a concrete replay; unclassifiable constructs are reported as such,
     #    after the dynamic search (the schedules above, the router probe, and a -race stress run) - never as a found input
-    if failed:
+    tables_fine = bool(diag) and diag.get("race_free") and diag.get("lock_order_ok") and diag.get("router_check") and not diag.get("unclassified")
+    if failed and tables_fine:
+        # the regenerated tables pass their checkers: what failed is a proof obligation itself (Coq build, gate, a theorem)
+        chk.violation("obligation", {"kind": "theorem", "broken": [n for n, _ in failed], "detail": [d[-800:] for _, d in failed][:4],
+                                     "oracle_verdict": "a proof obligation of props/C08.v (or the build / the no-admit gate) failed while the "
+                                                       "regenerated lockset / lock-order / router tables pass their checkers"},
+                      found_input=False)
+        reported += 1
+    elif failed:
         stress_rep = None
         unclassified = bool(diag and diag.get("unclassified"))
         if diag and (unclassified or diag.get("race_free") is False) and os.environ.get("VERIF_C08_STRESS", "1") != "0":
@@ -578,6 +591,6 @@ def replay(path):
     if impl:
         model = run_model_lines(chk, [model_line(case, impl[0])], "replay")
         print("model:", model[0])
-        print("oracle:", oracle(impl[0]) or "ok")
-        return 1 if (oracle(impl[0]) or norm(impl[0]) != norm(model[0])) else 0
+        print("oracle:", oracle(impl[0], case) or "ok")
+        return 1 if (oracle(impl[0], case) or norm(impl[0]) != norm(model[0])) else 0
     return 1
